@@ -73,8 +73,15 @@ pub fn gen_random(seed: u64, idx: u64) -> Plan {
                 w.chunked = None;
                 w.resp_bytes = w.resp_bytes.min(5000);
                 nonce += 1;
-                longest = longest.max(u64::from(w.steps) * w.step_ms);
-                c.h2.push(w.h2(j, r.range(0, 30)));
+                let dur = u64::from(w.steps) * w.step_ms;
+                longest = longest.max(dur);
+                let mut h = w.h2(j, r.range(0, 30));
+                if w.panic_at == 0 && r.chance(1, 4) {
+                    // the client resets this one stream; its siblings and the
+                    // connection stay
+                    h.cancel_ms = r.range(1, dur + 60);
+                }
+                c.h2.push(h);
                 c.reqs.push(w.plan());
             }
             if victims < max_victims && r.chance(1, 2) {
@@ -542,6 +549,24 @@ pub fn check_c16(
                 }
             } else if !leaving {
                 for (k, rq) in cp.reqs.iter().enumerate() {
+                    let cancelled = cp.h2.iter().any(|h| h.req == k && h.cancel_ms > 0)
+                        && obs.h2_err[k].as_deref() == Some(crate::client_h2::CANCELLED);
+                    if cancelled {
+                        // The client reset this stream itself: nothing is owed
+                        // to it.  (Rules 1 and 2 still hold for its handler;
+                        // whether cancel mode drops it is not promised by the
+                        // property, which speaks of clients that disconnect.)
+                        if let Some(h) = hist.get(&rq.nonce) {
+                            match h.terminal.first().map(|t| t.2) {
+                                Some(Ev::HandlerDropped) => probe("h2_stream_reset_handler_dropped"),
+                                Some(Ev::HandlerExit) => probe("h2_stream_reset_handler_completed"),
+                                _ => {}
+                            }
+                        } else {
+                            probe("h2_stream_reset_before_handler");
+                        }
+                        continue;
+                    }
                     match &obs.by_req[k] {
                         Some(r) => {
                             if let Err(e) = work_response_ok(rq, &r.resp) {
